@@ -66,6 +66,10 @@ int Clock__operator_cmp(struct Clock* self, struct Clock* rhs)
 struct ActorCreateTransition g_t[NEV]; /* every transition object is large enough for the ACTOR_CREATE downcast */
 _Bool D[NEV][NEV];                     /* ghost: uninterpreted dependency relation between the NEV transitions */
 
+#ifdef H_racing_contract
+/* get_racing_events_of against the SPECIFICATION of happens_before (stub below): decided without enumerating executions */
+#define VF_OVERRIDE_Execution__happens_before
+#endif
 #ifdef H_hb_closure
 /* hand-made modularity for the plain lemma harness: push_transition sees max_emplace_left through the specification
  * that harness `max_emplace_left` proves for ALL pairs of distinct full-size clock vectors (stub below). Without it
@@ -204,6 +208,102 @@ void harness(void)
     }
     __CPROVER_assert(L.n <= NEV, "no other element in the list"); /*@ racing_events_nothing_else */
   }
+  VF_CANARY_POINT;
+}
+#endif
+
+/* ---------------- Part 3: get_racing_events_of in terms of happens_before (contract route) ----------------------------
+ * The unit get_racing_events_of(target) reads: the actor of every event, the clock vector of the TARGET event, and
+ * happens_before(e1, e2). Here happens_before is replaced by what it is specified to be (and what hb_closure establishes of
+ * the real function on the executions it enumerates): an ARBITRARY relation HBG with
+ *   (P1) HBG(i,j) => i < j, (P2) transitive, (P3) two events of one actor are ordered,
+ * and the target's clock vector holds, per actor, the latest event that is the target or happens before it (hb_closure's
+ * clock_slot_is_latest_predecessor_of_actor). No push_transition, no dependency matrix: NEVR events of up to NACTR
+ * actors, every actor assignment, every such HBG, every target.
+ * Obligation: the result holds exactly once each event e of ANOTHER actor with HBG(e,target), no event k with
+ * HBG(e,k) and HBG(k,target), and not HBG(e, previous event of the target's actor) - and nothing else.              */
+#ifdef H_racing_contract
+#ifndef NEVR
+#define NEVR 5
+#endif
+#ifndef NACTR
+#define NACTR 4
+#endif
+_Static_assert(NACTR < AID_INV && NEVR < VF_CAP, "actors below Aid::INVALID, events within the list capacity");
+_Bool HBG[NEVR][NEVR];
+struct Transition g_rt[NEVR];
+struct Event g_rev[NEVR];
+struct Clock g_rcv[VFC_max_threads];
+struct Execution g_RE;
+#define RACT(i) (g_rt[i].aid_.value_)
+_Bool Execution__happens_before(struct Execution* self, unsigned e1, unsigned e2)
+{
+  __CPROVER_assert(self == &g_RE && e1 < NEVR && e2 < NEVR, "happens_before asked about two events of the execution");
+  /*@ racing_asks_happens_before_within_execution */
+  return HBG[e1][e2];
+}
+void harness(void)
+{
+  Clock_INVALID.value_ = CLK_INV;
+  vf_exc               = 0;
+  for (int i = 0; i < NEVR; i++) {
+    unsigned char a = nondet_uchar();
+    __CPROVER_assume(a < NACTR);
+    g_rt[i].aid_.value_  = a;
+    g_rt[i].type_        = nondet_int();
+    g_rev[i].transition_ = &g_rt[i];
+  }
+  for (int i = 0; i < NEVR; i++)
+    for (int j = 0; j < NEVR; j++) {
+      HBG[i][j] = i < j ? nondet_bool() : 0;              /* P1 */
+      if (i < j && RACT(i) == RACT(j))
+        __CPROVER_assume(HBG[i][j]);                      /* P3 */
+    }
+  for (int i = 0; i < NEVR; i++)
+    for (int k = 0; k < NEVR; k++)
+      for (int j = 0; j < NEVR; j++)
+        __CPROVER_assume(!(HBG[i][k] && HBG[k][j]) || HBG[i][j]); /* P2 */
+  unsigned target = nondet_unsigned();
+  __CPROVER_assume(target < NEVR);
+  /* clock vector of the target (the only one the unit reads) */
+  for (unsigned a = 0; a < VFC_max_threads; a++) {
+    unsigned want = CLK_INV;
+    for (unsigned i = 0; i < NEVR; i++)
+      if (i <= target && RACT(i) == a && (i == target || HBG[i][target]))
+        want = i;
+    g_rcv[a].value_ = want;
+  }
+  g_rev[target].clock_vector_.contents_.d   = g_rcv;
+  g_rev[target].clock_vector_.contents_.h   = 0;
+  g_rev[target].clock_vector_.contents_.n   = NT;
+  g_rev[target].clock_vector_.contents_.cap = NT;
+  g_RE.contents_.d   = g_rev;
+  g_RE.contents_.h   = 0;
+  g_RE.contents_.n   = NEVR;
+  g_RE.contents_.cap = NEVR;
+
+  struct vf_seq_unsigned_int L = Execution__get_racing_events_of(&g_RE, target);
+  __CPROVER_assert(vf_exc == 0, "get_racing_events_of raises nothing"); /*@ racing_contract_never_fails */
+  int prev = -1;
+  for (unsigned i = 0; i < NEVR; i++)
+    if (i < target && RACT(i) == RACT(target))
+      prev = (int)i;
+  for (unsigned i = 0; i < NEVR; i++) {
+    _Bool middle = 0;
+    for (unsigned k = 0; k < NEVR; k++)
+      if (HBG[i][k] && HBG[k][target])
+        middle = 1;
+    _Bool want = i < target && RACT(i) != RACT(target) && HBG[i][target] && !middle && !(prev >= 0 && HBG[i][prev]);
+    unsigned count = 0;
+    for (size_t p = 0; p < NEVR; p++)
+      if (p < L.n && L.d[L.h + p] == i)
+        count++;
+    __CPROVER_assert(count == (want ? 1u : 0u), "racing events = maximal predecessors of other actors, each once");
+    /*@ racing_contract_exactly_the_maximal_predecessors_of_other_actors */
+  }
+  __CPROVER_assert(L.n <= NEVR, "no other element in the list"); /*@ racing_contract_nothing_else */
+  for (size_t p = 0; p < NEVR; p++)
+    __CPROVER_assert(!(p < L.n) || L.d[L.h + p] < NEVR, "only events of the execution"); /*@ racing_contract_nothing_else */
   VF_CANARY_POINT;
 }
 #endif
